@@ -149,6 +149,12 @@ def run(repo: Repo, rep: Report, tier: str) -> None:
     # ---------------------------------------------------------------- R19.2 sibling call sites of parse_parameter
     po = repo.func("core.loader.operations.parser:parse_operations")
     pcs = [c for c in calls_in(po.node) if dotted(c.func) == "parse_parameter"]
+    if len(pcs) < 2 and not any(any(dotted(c.func) == "parse_parameter" for c in calls_in(hf.node)) and sum(
+            1 for c in calls_in(po.node) if isinstance(c.func, ast.Name) and c.func.id == q) >= 2 for q, hf in po.module.functions.items() if "." not in q and hf is not po):
+        from sa.flatten import flatten as _fl192
+
+        po = _fl192(po)  # the parameter merge moved into a helper that is called once: written out
+        pcs = [c for c in calls_in(po.node) if dotted(c.func) == "parse_parameter"]
     via_helper = None
     if len(pcs) < 2:
         # both levels may go through one helper of the module (`_parse_parameter_nodes(nodes, context, operation_id)`): its call sites
